@@ -133,7 +133,7 @@ Definition ctx_code (c : context) : N :=
 Definition xname_code (x : ext_name) : N :=
   match x with XSki => 1 | XEku => 2 | XKu => 3 | XBc => 4 | XCrl => 5 | XIan => 6 end.
 Definition verr_code (v : verr) : N :=
-  match v with VDecode => 0 | VValue => 1 | VCrlEmpty => 2 | VCrlIssuer => 3 | VCrlReasons => 4 | VCrlPoint => 5 end.
+  match v with VDecode => 0 | VValue => 1 | VCrlEmpty => 2 | VCrlIssuer => 3 | VCrlReasons => 4 | VCrlPoint => 5 | VIanEmpty => 6 end.
 Definition nattr_code (a : name_attr) : N := match a with NCountry => 0 | NState => 1 end.
 Definition kind_code (k : ekind) : N :=
   match k with
@@ -179,11 +179,10 @@ Definition spec_verdict (i : c12_input) (impl_success : bool) : cbor :=
   if Bool.eqb impl_success conf then ctext "ok"
   else if impl_success then
     (* accepted although not conformant *)
+    (* a certificate that repeats an extension is outside the domain of the equivalence
+       (C12_iff_needs_unique_extensions): the property neither requires nor forbids accepting it *)
     if negb (inputs_wf_b (i_rs i) leaf (i_reg i)) then
-      if negb (nodup_b (map e_oid (c_exts leaf))) ||
-         existsb (fun a => negb (nodup_b (map e_oid (c_exts (a_cert a))))) (i_reg i)
-      then ctext "known:c12_duplicate_extension_accepted:a certificate with a repeated extension is accepted"
-      else ctext "known:c12_empty_issuer_alt_name_accepted:an issuer alternative name without any name is accepted"
+      ctext "n/a:certificate repeats an extension (outside the property's domain)"
     else ctext "fail:validation succeeded but the chain is not conformant"
   else
     (* conformant but rejected *)
